@@ -98,7 +98,10 @@ Definition check (c : case) : verdict :=
   let acked := N.to_nat (c_acked c) in
   let m_effs := negb (list_eqb eff_eqb (effs_of ms st0) (c_effs c)) in
   let m_reads := negb (o_opened o) || negb (reads_eqb (reads_of s) (o_reads o)) in
-  let m_ack := negb ((t_acked (snd st) <=? c_acked c) && (c_acked c <=? t_acked (snd st_hi))) in
+  (* the acknowledgement that follows wal.Sync is one micro-operation with it: the lower bound
+     is the count just before the micro-operation of the n-th effect *)
+  let st_lo := match n with O => st0 | S n' => run_through ms n' st0 end in
+  let m_ack := negb ((t_acked (snd st_lo) <=? c_acked c) && (c_acked c <=? t_acked (snd st_hi))) in
   let pl := plan c s in
   let m_maint := (c_prop c =? 11) && negb (reads_eqb (reads_of (maint_all pl s)) (last_stage o)) in
   let viol :=
